@@ -4,6 +4,7 @@ import QlibcModel.Props.C07
 #print axioms Qlibc.Props.C07.wf_put
 #print axioms Qlibc.Props.C07.wf_remove
 #print axioms Qlibc.Props.C07.wf_remove_by_idx
+#print axioms Qlibc.Props.C07.remove_by_idx_out_of_range
 #print axioms Qlibc.Props.C07.wf_clear
 #print axioms Qlibc.Props.C07.wf_reachable
 #print axioms Qlibc.Props.C07.wf_check_sound
